@@ -280,6 +280,20 @@ func runC09(c *Ctx) []Obligation {
 			"a tree's root is replaced only by the mutating operations of the working tree, by loading a saved version, and by cloning"),
 	)
 	out = append(out, versionedReadersUseSavedTree(c, P)...)
+	// what a later PrevCtx(h) hands out is whatever sits in the context cache under h: only PrevCtx puts
+	// anything there, and what it puts there under a height is the context it built on the store lazily
+	// loaded for that very height
+	out = append(out,
+		c.whoMayCall(P, "ctxcache.writers", "(types.Context).addToCache", []string{`\(types\.Context\)\.PrevCtx`}, "the per-height context cache is filled only by PrevCtx"),
+	)
+	out = append(out, c.Rows([]Row{
+		{Prop: P, ID: "ctxcache.entry-is-that-heights-store", Fn: "(types.Context).PrevCtx",
+			Target: CallTo(`^\(types\.Context\)\.addToCache\(`).Except(`^\(types\.Context\)\.addToCache\(c, fmt\.Sprintf\("%d", \[height\]\), \(types\.Context\)\.SetPrevCtx\(.*types\.NewContext\(assert<types\.MultiStore>\(invoke types\.CommitMultiStore\.LoadLazyVersion\(assert<types\.CommitMultiStore>\(c\.ms\), height\)#0\), .*, true\)\)$`),
+			Why:    "the entry filed under a height is the marked historical context over the multistore loaded for that height"},
+		{Prop: P, ID: "ctxcache.hit-key-is-the-height", Fn: "(types.Context).PrevCtx",
+			Target: CallTo(`^\(types\.Context\)\.getFromCache\(`).Except(`^\(types\.Context\)\.getFromCache\(c, fmt\.Sprintf\("%d", \[height\]\)\)$`),
+			Why:    "and it is looked up under the same key"},
+	})...)
 	return out
 }
 
